@@ -42,7 +42,7 @@ LeadPool == << <<>>, <<"">>, <<"  ", "">> >>
 TrailPool == << <<>>, <<"">>, <<"", "  ">> >>
 
 LastLineNonEmpty(d) == LET ls == DocLines(d) IN ls # <<>> /\ ls[Len(ls)].text # ""
-OkDoc(d) == d.finalNL \/ LastLineNonEmpty(d)
+OkDoc(d) == (d.finalNL \/ LastLineNonEmpty(d)) /\ ~CRBeforeLF(d)
 
 Shards ==
     {[k |-> "A", n |-> i] : i \in 1..NV}
